@@ -94,6 +94,9 @@ func (h *bufHandler) ServeHTTP(w http.ResponseWriter, req *http.Request) {
 	if boolOr(sc, "grpc", false) {
 		w.Header().Set("Grpc-Status", "5")
 	}
+	if boolOr(sc, "early", false) { // informational response first (what a reverse proxy does for 103 Early Hints)
+		w.WriteHeader(http.StatusEarlyHints)
+	}
 	if st := numOr(sc, "status", 200); st != 0 {
 		w.WriteHeader(st)
 	}
